@@ -365,6 +365,28 @@ def analyse_package(pkg="markdown_it"):
             functions.append(qual)
             sites.extend(ff.sites)
             problems.extend((qual, p) for p in ff.problems)
+        # module-level instances of mutable package classes: an object built at import time is shared by everything that
+        # receives it (a rule table of Rule objects handed to every Ruler would make `enabled` flags global)
+        for node in mi.tree.body:
+            val = node.value if isinstance(node, (ast.Assign, ast.AnnAssign)) else None
+            if val is None:
+                continue
+            for call in [n for n in ast.walk(val) if isinstance(n, ast.Call) and isinstance(n.func, ast.Name)]:
+                cname = call.func.id
+                target = mi.imports.get(cname, f"{modname}.{cname}" if cname in mi.classes else None)
+                if not target or not target.startswith(pkg + "."):
+                    continue
+                try:
+                    cmod, _, ccls = target.rpartition(".")
+                    cnode2 = S.load_module(cmod).classes.get(ccls)
+                except S.SourceError:
+                    cnode2 = None
+                if cnode2 is None:
+                    continue
+                if _is_frozen_dataclass(cnode2) or _is_namedtuple_like(cnode2):
+                    continue
+                tname = ast.unparse(node.targets[0]) if isinstance(node, ast.Assign) else ast.unparse(node.target)
+                problems.append((f"{modname}.{tname}", f"module-level instance of mutable class {ccls} in `{tname}` at line {node.lineno}"))
         # class-level mutable attributes
         for cn, cnode in mi.classes.items():
             for item in cnode.body:
@@ -386,6 +408,20 @@ def _is_dataclass(cnode):
         if "dataclass" in name:
             return True
     return False
+
+
+def _is_frozen_dataclass(cnode):
+    for d in cnode.decorator_list:
+        if isinstance(d, ast.Call):
+            n = d.func
+            name = n.id if isinstance(n, ast.Name) else getattr(n, "attr", "")
+            if "dataclass" in name and any(k.arg == "frozen" and isinstance(k.value, ast.Constant) and k.value.value is True for k in d.keywords):
+                return True
+    return False
+
+
+def _is_namedtuple_like(cnode):
+    return any((isinstance(b, ast.Name) and b.id in ("NamedTuple", "Enum", "IntEnum", "Exception")) or (isinstance(b, ast.Attribute) and b.attr in ("NamedTuple", "Enum")) for b in cnode.bases)
 
 
 def allowed_regions(func: str) -> set[str]:
